@@ -323,6 +323,8 @@ class Result:
                          "traces_validated_against_impl": 0, "samples": [], "rule": "", "exhaustive": False}
         self.assumptions = []
         self.known = load_known()
+        for f in glob.glob(os.path.join(WORK, "replay", prop + "-*.json")):
+            os.remove(f)
 
     def add_mismatch(self, rec):
         k = match_known(self.prop, rec, self.known)
